@@ -201,7 +201,7 @@ def readErr (s : String) : ErrClass :=
 def handleC12 (c : Case) (secs : List String) : String :=
   let cwd := absOfRel c.cwd
   match load cwd (c.stmts.map toEnvStmt) with
-  | .error _ => "ERR load || C12=na C13=na"
+  | .error _ => "ERR load || C12=na C13=na C19=na C05=na"
   | .ok f =>
     let sf : SpokFile := ⟨projDir, f.vars, cleanTasks c.stmts⟩
     match (sect secs "BEFORE").bind parseSnap, (sect secs "AFTER").bind parseSnap with
@@ -217,8 +217,11 @@ def handleC12 (c : Case) (secs : List String) : String :=
       -- judge on the implementation's behaviour
       let obs : Obs12 := ⟨readErr ((sect secs "ERR").getD "?"), sect secs "RAN" == some "1", before, after⟩
       let v := if c.judged then verdict (c12 sf cwd obs) else "na"
-      s!"{model} || C12={v} C13=na"
-    | _, _ => "BAD-SNAPSHOT || C12=FAIL C13=na"
+      -- the same verdict serves the checks this engine is an extra engine of: C19 (what `--clean` may delete) and, when an
+      -- output glob is involved, C05 (a glob denotes exactly the matching non-hidden files)
+      let hasGlob := (cleanTasks c.stmts).any fun t => !t.globOutputs.isEmpty
+      s!"{model} || C12={v} C13=na C19={v} C05={if hasGlob then v else "na"}"
+    | _, _ => "BAD-SNAPSHOT || C12=FAIL C13=na C19=FAIL C05=FAIL"
 
 def readPhase (s : String) : Phase :=
   if s == "ok" then .ok else if s == "err" then .err else if s == "none" then .none else .other
@@ -288,18 +291,18 @@ def handleC13 (c : Case) (secs : List String) : String :=
   let v := match obs with
     | none => "FAIL"
     | some o => if c.judged then verdict (c13 cwd (c.stmts.map toStmtCase) o) else "na"
-  s!"{model} || C12=na C13={v}"
+  s!"{model} || C12=na C13={v} C19=na C05=na"
 
 def handle (line : String) : String :=
   match line.splitOn " | " with
   | [inp, impl] =>
     match parseCase inp with
-    | none => "BAD-CASE || C12=FAIL C13=FAIL"
+    | none => "BAD-CASE || C12=FAIL C13=FAIL C19=FAIL C05=FAIL"
     | some c =>
       let secs := (impl.splitOn " ; ").map (fun x => x.trimAscii.toString)
       if c.prop == "C12" then handleC12 c secs
       else if c.prop == "C13" then handleC13 c secs
-      else "BAD-PROP || C12=FAIL C13=FAIL"
-  | _ => "BAD-LINE || C12=FAIL C13=FAIL"
+      else "BAD-PROP || C12=FAIL C13=FAIL C19=FAIL C05=FAIL"
+  | _ => "BAD-LINE || C12=FAIL C13=FAIL C19=FAIL C05=FAIL"
 
 end Spok.Oracle.Env
